@@ -245,13 +245,18 @@ class C08(DiffProperty):
         t = case.split()
         return t[:3], [[t[3]]]
 
+    def model_args(self):
+        """the variant of mpt_parse_option the model runs: the switch lives in props/c09.py (the defect is a C09 finding)"""
+        import c09
+        return ("--raw",) if c09.PATCHED_OPTION_NAME_BLANK else ()
+
     # ---- run implementation, model, and the specification as checker of the implementation's observation
     def evaluate(self, cases, workdir, tagsuffix=""):
         hxe = build_harness(self.harness_src, self.libs, extra=self.extra_harness_flags)
         mx = build_model(self.mlname, self.driver, self.extract_vo)
         ided = ["c%d %s" % (i, c) for i, c in enumerate(cases)]
         I, e1 = run_cases(hxe, ided, workdir, "impl" + tagsuffix, env=self.harness_env, args=self.harness_args)
-        M, e2 = run_cases(mx, ided, workdir, "model" + tagsuffix)
+        M, e2 = run_cases(mx, ided, workdir, "model" + tagsuffix, args=self.model_args())
         obs = ["I %s %s" % (k, " ".join(v)) for k, v in I.get("I", {}).items()]
         S, e3 = run_cases(mx, obs, workdir, "spec" + tagsuffix, args=("--spec",)) if obs else ({}, [])
         res = []
